@@ -514,6 +514,7 @@ func c18RawFramed(p *load.Program, r *oblig.Report) {
 		r.Check(announced == "uint32(len("+copied+"))" && strings.HasSuffix(copied, ".AuthBytes"), rule, "saslauthenticate.Request.writeTo → the raw token is prefixed with its own length", p.Pos(wt.Pos()),
 			"binary.BigEndian.PutUint32(buf[:4], uint32(len(r.AuthBytes))); copy(buf[4:], r.AuthBytes)", "announces "+announced+", sends "+copied)
 	}
+	rawTokenReadFull(p, r, rule)
 	// legacy Conn: writeInt32(int32(len(data))) then Write(data) on the raw branch
 	announced, sent := "", ""
 	an.EachInstr(fn, func(ins ssa.Instruction) {
@@ -571,6 +572,47 @@ func c18Loops(p *load.Program, r *oblig.Report) {
 			if errVal == nil {
 				r.Bad(rule, "kafka."+name+" → error of "+short, p.Pos(call.Pos()), "tested", "discarded")
 				return
+			}
+			// the error may be classified by a helper that did not exist at review time before it is tested: follow
+			// it when that helper returns nil only for a nil argument
+			for _, ref := range *errVal.Referrers() {
+				c2, ok := ref.(*ssa.Call)
+				if !ok || c2.Call.StaticCallee() == nil || !an.IsNew(c2.Call.StaticCallee()) {
+					continue
+				}
+				h := c2.Call.StaticCallee()
+				if h.Signature.Results().Len() != 1 || !isErrorType(h.Signature.Results().At(0).Type()) {
+					continue
+				}
+				var prm *ssa.Parameter
+				for i, a := range c2.Call.Args {
+					if a == errVal && i < len(h.Params) {
+						prm = h.Params[i]
+					}
+				}
+				if prm == nil {
+					continue
+				}
+				nilOnlyForNil := true
+				for _, b := range h.Blocks {
+					ret, isRet := b.Instrs[len(b.Instrs)-1].(*ssa.Return)
+					if !isRet || !an.IsNilConst(ret.Results[0]) {
+						continue
+					}
+					guarded := false
+					for d, child := b.Idom(), b; d != nil; d, child = d.Idom(), d {
+						_, ci := an.IfCond(d)
+						if e := ci.Edge(token.EQL); e >= 0 && ci.X == ssa.Value(prm) && an.IsNilConst(ci.Y) && edgeControls(d, e, child) {
+							guarded = true
+						}
+					}
+					if !guarded {
+						nilOnlyForNil = false
+					}
+				}
+				if nilOnlyForNil {
+					errVal = c2
+				}
 			}
 			// find a test of errVal against nil; `switch { case err == nil: … }` included
 			var failStart, testBlk *ssa.BasicBlock
@@ -660,6 +702,14 @@ func c18Loops(p *load.Program, r *oblig.Report) {
 			}
 			if k, ok := an.ConstInt(an.Unwrap(ret.Results[0])); ok && k == 58 {
 				okEOF = true
+			}
+		})
+		// (the mapping may live in a helper that did not exist at review time: its returns are not returns of fn)
+		an.EachInstr(fn, func(ins ssa.Instruction) {
+			if mi, ok := ins.(*ssa.MakeInterface); ok && mi.Parent() != fn {
+				if k, isK := an.ConstInt(mi.X); isK && k == 58 && an.NamedIs(mi.X.Type(), load.ModPath, "Error") {
+					okEOF = true
+				}
 			}
 		})
 		r.Check(okEOF, rule, "kafka."+name+" → a connection closed by the broker is reported as SASLAuthenticationFailed", p.Pos(fn.Pos()), "errors.Is(err, io.EOF) ⇒ return SASLAuthenticationFailed (58)", "not found")
@@ -756,4 +806,58 @@ func c18Mechanisms(p *load.Program, r *oblig.Report) {
 		}
 	})
 	r.Check(okFmt, rule, "sasl/plain.Start sends \\x00username\\x00password", p.Pos(st.Pos()), `fmt.Sprintf("\x00%s\x00%s", m.Username, m.Password)`, "not recognised")
+}
+
+// rawTokenReadFull: the raw (unframed) SASL answer is the one response read outside a decoder frame. Its bytes are
+// handed to the mechanism only when all the announced bytes arrived: the buffer of the announced length is filled
+// with io.ReadFull, whose error (a connection cut inside the token included) fails the exchange.
+func rawTokenReadFull(p *load.Program, r *oblig.Report, rule string) {
+	fn := p.Func("protocol/saslauthenticate", "(*Request).readResp")
+	if fn == nil {
+		r.Lost(rule, "protocol/saslauthenticate.(*Request).readResp")
+		return
+	}
+	var tok ssa.Value
+	an.EachInstr(fn, func(ins ssa.Instruction) {
+		if st, ok := ins.(*ssa.Store); ok {
+			if fa, isFA := st.Addr.(*ssa.FieldAddr); isFA && an.FieldName(fa.X.Type(), fa.Field) == "AuthBytes" {
+				tok = st.Val
+			}
+		}
+	})
+	if tok == nil {
+		r.Lost(rule, "Response.AuthBytes in protocol/saslauthenticate.(*Request).readResp")
+		return
+	}
+	mk, _ := tok.(*ssa.MakeSlice)
+	full := false
+	if mk != nil {
+		an.EachInstr(fn, func(ins ssa.Instruction) {
+			c, ok := ins.(*ssa.Call)
+			if !ok || c.Call.StaticCallee() == nil || an.ShortFunc(c.Call.StaticCallee()) != "io.ReadFull" {
+				return
+			}
+			buf := c.Call.Args[1]
+			if sl, isSl := buf.(*ssa.Slice); isSl && sl.Low == nil && sl.High == nil {
+				buf = sl.X
+			}
+			if buf != ssa.Value(mk) {
+				return
+			}
+			// its error gates the success return
+			for _, ref := range *c.Referrers() {
+				if ex, isEx := ref.(*ssa.Extract); isEx && ex.Index == 1 {
+					for _, b := range an.Blocks(fn) {
+						_, ci := an.IfCond(b)
+						if ci.Edge(token.NEQ) >= 0 && ci.X == ssa.Value(ex) && an.IsNilConst(ci.Y) {
+							full = true
+						}
+					}
+				}
+			}
+		})
+	}
+	found := "the token is " + clean(an.Shape(tok))
+	r.Check(mk != nil && full, rule, "saslauthenticate.Request.readResp hands out the server token only after reading all its announced bytes", p.Pos(fn.Pos()),
+		"data := make([]byte, respLen); if _, err := io.ReadFull(read, data); err != nil { return nil, err }", found)
 }
